@@ -5,6 +5,18 @@ CHECKS = {
  "C01": dict(technique="property-based testing: enumerated feature matrix + rapid-drawn spec compositions, oracle = go/parser + gofmt fixed point + go/types (std-only importer) on goag's output",
              level="Exploration by generated search. ~12,500 single-feature specs (schema kind x position x nullable x ref/inline/alias x required, name shapes, text shapes, operation rows, negative rows) under client off/on, plus rapid-drawn whole documents with rapid-drawn configs (500 quick / 20,000 thorough, shrunk by rapid). Every success of goag is checked to parse, be gofmt-stable and type-check against the standard library; a failure is matched against KNOWN_FINDINGS.txt by exact row id.",
              note="Trusts go/types with the source importer as the definition of 'compiles'. Features behind a known finding are excluded from the random compositions by construction (counted in evidence). Custom types and --api-handler=false are outside the dialect (DESIGN.md §3.7/3.8).", ref="§4 C01"),
+ "C12": dict(technique="property-based testing: repetition invariant (k in-process + CLI runs must hash identically) over rapid-drawn map-fat specs and matrix rows",
+             level="Exploration: each generated spec is rendered 6 (12) times in one process and 3 (6) times by the CLI in separate processes; Go re-randomises every map range, so repetition samples iteration orders. Any difference in file set or sha256 is a violation.",
+             note="Probabilistic: a 2-way unordered choice is missed with probability 2^-(k-1). Error texts are not compared.", ref="§4 C12"),
+ "C13": dict(technique="property-based testing: exhaustive short strings + rapid text + real specs, oracle = go/types constant value of SpecFile equals input (round trip); served half through the compiled driver",
+             level="Exploration with an exhaustive core: all 2800 strings of length <=4 over the hostile alphabet, rapid-drawn text and real specs in several renderings; the constant compiled into spec_file.go is evaluated with go/types and compared byte for byte; the served body is compared through the generated router.",
+             note="Contents are valid UTF-8 without NUL. The HTTP method on the spec route is not constrained.", ref="§4 C13"),
+ "C15": dict(technique="property-based testing / structural mutation fuzzing of OpenAPI documents, goag run in a child process per document, oracle = no panic / fatal exit / hang, error mentions a named element of the document",
+             level="Exploration: 1-3 rapid-chosen structural mutations of seed documents; loader-accepted mutants are generated in a child process so that stack overflows and hangs are observed; a 5% sample also goes through the real CLI and exit statuses must agree.",
+             note="'says where' is implemented as 'mentions some named element of the document' (weak, sound). Timeouts are inconclusive unless reproduced 3x at 60 s.", ref="§4 C15"),
+ "C19": dict(technique="model-based / stateful property-based testing: exhaustive histories of length <=3 plus rapid state machine, model = fresh run into an empty directory",
+             level="Exhaustive for the stated finite part (all 584 histories over the 8 invocations, a sample through the CLI) plus rapid state-machine histories up to length 8 with user files and stale goag-owned files; after every step the directory is compared with a fresh run of the same invocation and re-running must change nothing.",
+             note="goag-owned files are the five fixed names; the specs used are small fixed documents (with/without components, three sizes).", ref="§4 C19"),
 }
 ALL = ["C%02d" % i for i in range(1, 21)]
 NA_REASON = "check not built yet in this session (planned: see DESIGN.md §4); not claimed until its check runs clean on the unchanged tree"
